@@ -154,7 +154,7 @@ def step_oracles(cmd, strategy, sel, before, after):
     msgs = []
     fb = [o for o in before if "solid_header" not in o]
     fa = [o for o in after if "solid_header" not in o]
-    allsel = cmd["name"] in ("strip", "migrate")
+    allsel = cmd["name"] == "migrate" or (cmd["name"] == "strip" and not cmd["patterns"])
     if cmd["name"] == "delete":
         want = [o for o in fb if not sel(o["name"])]
         if [o["name"] for o in fa] != [o["name"] for o in want]:
